@@ -103,6 +103,7 @@ pub fn blocks(thorough: bool) -> Vec<Block> {
         b.push(Block::new(u_kind_triples(), pres(&[0]), "7 subsets"));
         b.push(Block::new(u_many(30), pres(&[0]), "7 subsets"));
         b.push(Block::new(u_nested_rep(), pres(&[R]), "7 subsets x r"));
+        b.push(Block::new(Universe::new("U_adv(cluster units)", &["\u{d4e}a", ".\u{1f3fb}", "1\u{e33}", "a", "\u{111c2}-"], 4, 1, false), pres(&[R, R | I]), "7 subsets x {r, r+i} (a two-scalar cluster that is not split, repeated)"));
         b.push(Block::new(u_long_literal_at(), vec![Cfg::new(X), Cfg::new(X | E), Cfg::new(X | G | I)], "x, x+e, x+g+i"));
     } else {
         let b2: Vec<u32> = lattice_le(0, ALL_BITS & !(X | G | E | U | C), 2).iter().map(|c| c.bits).collect();
